@@ -379,9 +379,6 @@ impl JwkDocumentExt for CoreDocument {
       let mut header = JwsHeader::new();
 
       header.set_alg(alg);
-      if let Some(custom) = &options.custom_header_parameters {
-        header.set_custom(custom.clone())
-      }
 
       if let Some(ref kid) = options.kid {
         header.set_kid(kid.clone());
@@ -419,6 +416,17 @@ impl JwkDocumentExt for CoreDocument {
       if let Some(nonce) = &options.nonce {
         header.set_nonce(nonce.clone())
       };
+
+      if let Some(custom) = &options.custom_header_parameters {
+        // A custom parameter named like a parameter that is already set would be serialized as a second member of
+        // the same name: a header that neither this library nor other JWS implementations read consistently.
+        if let Some(name) = custom.keys().find(|name| header.has(name)) {
+          return Err(Error::EncodingError(
+            format!("custom header parameter `{name}` duplicates a header parameter that is already set").into(),
+          ));
+        }
+        header.set_custom(custom.clone())
+      }
 
       header
     };
